@@ -332,13 +332,18 @@ def judge_all(plugin, cases):
     return res
 
 
-def fails_fresh(prop, before, case) -> bool:
-    """does `case` fail its property when a fresh process first runs `before` and then `case`"""
+_STATE = {}      # property -> plugin_state(plugin) of the running check (travels with candidate replays)
+
+
+def fails_fresh(prop, before, case, baseline=None) -> bool:
+    """does `case` fail its property when a fresh process first runs `before` and then `case`.  `baseline` (optional): the
+    implementation outcome of the case when it ran first - an outcome that differs from it counts as failing (history dependence)"""
     tmp = os.path.join(ROOT, 'replays', f'.cand-{prop}-{os.getpid()}.json')
     os.makedirs(os.path.dirname(tmp), exist_ok=True)
     try:
         with open(tmp, 'w') as f:
-            json.dump({'property': prop, 'kind': 'failing-input', 'case': case, 'before': before}, f, default=str)
+            json.dump({'property': prop, 'kind': 'failing-input', 'case': case, 'before': before, 'baseline_impl': baseline,
+                       'plugin_state': _STATE.get(prop)}, f, default=str)
         p = subprocess.run([sys.executable, '-B', os.path.join(ROOT, 'harness', 'main.py'), prop, '--replay', tmp, '--quiet-replay'],
                            capture_output=True, text=True, timeout=900)
         return p.returncode == 1 and 'still reproduces' in p.stdout
@@ -349,21 +354,238 @@ def fails_fresh(prop, before, case) -> bool:
             os.remove(tmp)
 
 
-def minimal_history(prop, prefix, case, cap=400):
+def minimal_history(prop, prefix, case, cap=400, baseline=None):
     """a short list of earlier cases after which `case` fails in a fresh process, or None"""
-    if not prefix or not fails_fresh(prop, prefix, case):
+    if not prefix or not fails_fresh(prop, prefix, case, baseline):
         return None
     lo, hi = 1, len(prefix)              # smallest suffix length that still fails (assumes the dependence is monotone)
     while lo < hi:
         mid = (lo + hi) // 2
-        if fails_fresh(prop, prefix[len(prefix) - mid:], case):
+        if fails_fresh(prop, prefix[len(prefix) - mid:], case, baseline):
             hi = mid
         else:
             lo = mid + 1
     suffix = prefix[len(prefix) - lo:]
-    if len(suffix) > 1 and fails_fresh(prop, suffix[:1], case):
+    if len(suffix) > 1 and fails_fresh(prop, suffix[:1], case, baseline):
         return suffix[:1]                # the oldest case of that suffix is necessary; often it is sufficient
     return suffix if len(suffix) <= cap else None
+
+
+# ---------------------------------------------------------------- amplified run: histories and twins
+
+AMPLIFY_CAP = {'quick': 4000, 'thorough': 10000}        # cases taken from the run (evenly spaced, order kept)
+AMPLIFY_BUDGET_S = {'quick': 60, 'thorough': 80}       # wall-clock aim of the fresh process (the sample shrinks to fit; hard limit 4x)
+AMPLIFY_TWINS_PER_CASE = 3
+
+
+def plugin_state(plugin):
+    """what a fresh process must know to read this run's cases (optional plugin hooks export_state / import_state: e.g. the name table
+    of the checker family, whose name ids are hashes)"""
+    return plugin.export_state() if hasattr(plugin, 'export_state') else None
+
+
+VOLATILE_KEYS = ('trace', 'wall_s', 'stall_s')      # diagnostics some runners attach to an outcome: present or not / different from run to run
+
+
+def default_same_outcome(case, a, b):
+    """two executions of one case produced the same implementation outcome (measurements and optional diagnostics aside); a plugin
+    whose outcomes hold other run-dependent parts defines `same_outcome(case, a, b)` itself"""
+    if isinstance(a, dict) and isinstance(b, dict):
+        a = {k: v for k, v in a.items() if k not in VOLATILE_KEYS}
+        b = {k: v for k, v in b.items() if k not in VOLATILE_KEYS}
+    return a == b
+
+
+def _plain(o):
+    """what a value looks like after the trip through a replay file (tuples -> lists, keys -> str, unknown objects -> str)"""
+    return json.loads(json.dumps(o, default=str))
+
+
+def _wire_case(c):
+    """the case as a fresh process gets it: JSON only, without the private `x` entries (`_impl`: outcome cached while generating)"""
+    c = dict(c)
+    if isinstance(c.get('x'), dict):
+        c['x'] = {k: v for k, v in c['x'].items() if not str(k).startswith('_')}
+    return _plain(c)
+
+
+def run_impl_fresh(plugin, prop, cases, timeout):
+    """plugin.run_impl(cases) in ONE fresh interpreter (cold caches, exactly this order); None on timeout.  Returns (outcomes, the `c` of
+    every case after the run: a runner may re-derive the term the model gets from the objects it really built)"""
+    d = os.path.join(ROOT, 'replays')
+    os.makedirs(d, exist_ok=True)
+    fin, fout = os.path.join(d, f'.amp-{prop}-{os.getpid()}.in.json'), os.path.join(d, f'.amp-{prop}-{os.getpid()}.out.json')
+    try:
+        with open(fin, 'w') as f:
+            json.dump({'cases': cases, 'state': plugin_state(plugin)}, f, default=str)
+        try:
+            p = subprocess.run([sys.executable, '-B', os.path.join(ROOT, 'harness', 'main.py'), prop, '--run-impl', fin, fout],
+                               capture_output=True, text=True, timeout=timeout)
+        except subprocess.TimeoutExpired:
+            return None
+        if p.returncode != 0 or not os.path.exists(fout):
+            raise RuntimeError(f'amplified run: the implementation runner failed in the fresh process:\n{(p.stdout + p.stderr)[-3000:]}')
+        r = json.load(open(fout))
+        return r['impl'], r['c'], r.get('run_s', 0.0)
+    finally:
+        for f in (fin, fout):
+            if os.path.exists(f):
+                os.remove(f)
+
+
+def amplified_run(plugin, prop, tier, res, open_ids, per_case_s):
+    """History / twin amplification (the search for a concrete failing input when state is kept between calls).
+
+    Takes (a capped, evenly spaced sample of) the cases of the run and executes, in one fresh process, the sequence
+    `cases ++ reversed(cases) ++ cases-with-twins`; the third pass runs every case that has twins as `c, t1, c, t2, c, ...` where
+    the twins (`plugin.twins(case)`, optional hook, helpers in props/_twins.py) are cases that are equal to `c` under `==` / `hash` /
+    `repr` / `__qualname__` / `__code__` but differ in meaning (1 / True / 1.0, a class made twice, one `def` with other annotations,
+    ...), or `c` itself preceded by such a decoy inside its own program.  Every execution is judged like any case.  A history-dependent
+    failure is: an execution of a case of the run whose judgement shows a property failure that its first execution (the normal run)
+    did not show, or whose implementation outcome differs from that first execution although the runner derived the same model input
+    (the model is a function of its input: its answer cannot differ).  A twin that fails its property is a failing input in its own right; a twin on which model and
+    implementation disagree is a correspondence disagreement.
+    Returns {'violations': [(case, impl, model, judgement)], 'corr_breaks': [...], 'stats': {...}}; judgements carry `_prefix`
+    (the executions that came before, for minimal_history) and `_baseline_impl`."""
+    t0 = time.time()
+    stats = {'ran': False}
+    base = [(c, i, m, j) for (c, i, m, j) in res if not j['pfail'] and j['corr']]
+    if not base:
+        return {'violations': [], 'corr_breaks': [], 'stats': dict(stats, why='no clean case to amplify')}
+    cap = int(os.environ.get('VERIF_AMPLIFY_CAP') or getattr(plugin, 'AMPLIFY_CAP', AMPLIFY_CAP).get(tier, 4000))
+    budget = float(os.environ.get('VERIF_AMPLIFY_BUDGET_S') or getattr(plugin, 'AMPLIFY_BUDGET_S', AMPLIFY_BUDGET_S).get(tier, 60))
+    hook = getattr(plugin, 'twins', None)
+    hook_errors = [0]
+
+    def plan(n):
+        """the sample of n cases (evenly spaced, order kept), their twins, and the sequence of executions"""
+        step = len(base) / n
+        sample = [base[int(k * step)] for k in range(n)]
+        wire = [_wire_case(c) for (c, _, _, _) in sample]
+        twins_of = [[] for _ in sample]
+        if hook is not None:
+            for k, w in enumerate(wire):
+                try:
+                    tw = hook(json.loads(json.dumps(w))) or []
+                except Exception:
+                    hook_errors[0] += 1
+                    tw = []
+                twins_of[k] = [_wire_case(t) for t in tw[:AMPLIFY_TWINS_PER_CASE]]
+        seq, origin = [], []              # origin: ('case', k) | ('twin', k, t)
+        for k in range(n):
+            seq.append(wire[k]); origin.append(('case', k))
+        for k in reversed(range(n)):
+            seq.append(wire[k]); origin.append(('case', k))
+        for k in range(n):
+            if twins_of[k]:
+                seq.append(wire[k]); origin.append(('case', k))
+                for t, tw in enumerate(twins_of[k]):
+                    seq.append(tw); origin.append(('twin', k, t))
+                    seq.append(wire[k]); origin.append(('case', k))
+        return sample, wire, twins_of, seq, origin
+
+    n = min(cap, len(base))
+    sample, wire, twins_of, seq, origin = plan(n)
+    # size the run: a pilot of a few executions in a fresh process says what one execution costs there (generators may have cached
+    # the outcome while generating, a fresh process re-executes from the stored sources)
+    # (two pilots of different size: the difference is free of the fixed cost of the first execution - imports, temp dirs)
+    spread = seq[::max(len(seq) // 200, 1)][:200]
+    small, large = spread[::5], spread
+    pa = run_impl_fresh(plugin, prop, small, timeout=max(budget, 120))
+    pb = run_impl_fresh(plugin, prop, large, timeout=max(budget, 120)) if pa is not None else None
+    if pb is not None and len(large) > len(small):
+        per_exec = max((pb[2] - pa[2]) / (len(large) - len(small)), pb[2] / len(large) / 10, 1e-5)
+    else:
+        per_exec = max(per_case_s * 3, budget / 200)
+    allowed = int(budget / max(per_exec, 1e-5))
+    if len(seq) > allowed:
+        n = max(int(n * allowed / len(seq)), min(len(base), 40))
+        sample, wire, twins_of, seq, origin = plan(n)
+    n_twins = sum(len(t) for t in twins_of)
+    stats.update({'sample': n, 'of': len(base), 'twins': n_twins, 'executions': len(seq), 'twin_hook': hook is not None,
+                  'twin_hook_errors': hook_errors[0], 'pilot_s_per_execution': round(per_exec, 4)})
+    fresh = run_impl_fresh(plugin, prop, seq, timeout=max(4 * budget, 120))
+    if fresh is None:
+        stats.update({'why': 'the fresh process did not finish within the time limit; amplification incomplete', 'wall_s': round(time.time() - t0, 1)})
+        return {'violations': [], 'corr_breaks': [], 'stats': stats}
+    impl, cs_after, _ = fresh
+    if len(impl) != len(seq) or len(cs_after) != len(seq):
+        raise RuntimeError(f'amplified run: {len(impl)} outcomes for {len(seq)} executions')
+    # the model answers the case as the runner left it (judge_all does the same: run_impl first, then the driver); executions whose
+    # `c` is the one of the first execution reuse its model answer
+    ask = [p for p, o in enumerate(origin) if o[0] == 'twin' or cs_after[p] != wire[o[1]]['c']]
+    for p in ask:
+        seq[p] = dict(seq[p], c=cs_after[p])
+    asked = dict(zip(ask, run_driver([seq[p] for p in ask])))
+    same = getattr(plugin, 'same_outcome', None) or default_same_outcome
+    violations, corr_breaks = [], []
+    seen_bad = set()
+    drift = 0
+    # does the stored form of case k reproduce, in the fresh process, what the case did in the run?  (first execution of the first pass;
+    # a case whose `c` the runner re-derived is compared through its judgement)  Twins of a case that does not are not judged: what they
+    # would show is the replay limitation of their original (outcome cached while generating, identity lost in JSON), nothing about twins
+    faithful = {}
+    for p in range(n):
+        if p in asked:
+            j1 = plugin.judge(seq[p], impl[p], asked[p])
+            faithful[p] = bool(j1.get('corr', True)) and not j1.get('pfail')
+        else:
+            faithful[p] = same(seq[p], _plain(sample[p][1]), impl[p])
+    skipped_twins = 0
+    for p, o in enumerate(origin):
+        k = o[1]
+        c0, i0, m0, j0 = sample[k]
+        case, model = seq[p], asked.get(p, m0)
+        j = plugin.judge(case, impl[p], model)
+        j.setdefault('corr', True); j.setdefault('pfail', None); j.setdefault('finding', None); j.setdefault('tag', '')
+        known = bool(j['pfail'] and j['finding'] and j['finding'] in open_ids)
+        bad = None
+        if o[0] == 'case':
+            if j['pfail'] and not known:
+                bad = f"history-dependent failure (the same case passed when it ran first in this run): {j['pfail']}"
+            elif p not in asked and not same(case, _plain(i0), impl[p]):
+                drift += 1
+                bad = ('history-dependent outcome: the implementation answered ' + json.dumps(_plain(i0), default=str)[:300] +
+                       ' when the case ran first and ' + json.dumps(impl[p], default=str)[:300] + f' at execution {p} of the amplified sequence '
+                       '(same case, same model answer)' + ('' if j['corr'] else '; ' + str(j.get('why', ''))))
+        elif not faithful[k]:
+            skipped_twins += 1
+        else:
+            if j['pfail'] and not known:
+                bad = (f"twin of a passing case ({o[2] + 1}. twin: equal under == / hash / repr / qualname / code, different in meaning): "
+                       f"{j['pfail']}")
+            elif not j['corr']:
+                corr_breaks.append((case, impl[p], model, dict(j, tag='twin/' + str(j['tag']))))
+        if bad and (o, bad[:60]) not in seen_bad:
+            seen_bad.add((o, bad[:60]))
+            jj = dict(j, pfail=bad, finding=None, tag='amplified/' + str(j['tag']))
+            jj['_prefix'] = seq[:p]
+            jj['_baseline_impl'] = _plain(i0) if o[0] == 'case' else None
+            violations.append((case, impl[p], model, jj))
+    # a re-executed case that misbehaves is history-dependent only if the case, executed ALONE in a fresh process, still behaves as it did
+    # in the run; if it does not, its stored form does not reproduce what ran (an outcome cached while generating, an object identity
+    # lost in JSON): that is a limitation of the replay, not a failure of the library.  Checked for the smallest few candidates.
+    unfaithful, confirmed, kept = set(), set(), []
+    for v in sorted(violations, key=lambda t: case_size(t[0])):
+        jj = v[3]
+        if jj['_baseline_impl'] is None:          # a twin: a case in its own right
+            kept.append(v)
+            continue
+        key = json.dumps(v[0], sort_keys=True, default=str)
+        if key not in unfaithful and key not in confirmed:
+            if len(unfaithful) + len(confirmed) >= 6:
+                continue                          # enough candidates examined
+            if fails_fresh(prop, [], v[0], jj['_baseline_impl']):
+                unfaithful.add(key)
+            else:
+                confirmed.add(key)
+        if key in confirmed:
+            kept.append(v)
+    stats.update({'ran': True, 'history_failures': len(kept), 'history_candidates': len(violations), 'outcome_drift': drift,
+                  'not_replayable_alone': len(unfaithful), 'cases_not_reproduced_by_their_stored_form': sum(1 for v in faithful.values() if not v),
+                  'twins_skipped_for_that': skipped_twins, 'twin_correspondence_breaks': len(corr_breaks), 'wall_s': round(time.time() - t0, 1)})
+    violations = kept
+    return {'violations': violations, 'corr_breaks': corr_breaks, 'stats': stats}
 
 
 def write_replay(prop, seed, n, payload):
@@ -409,6 +631,7 @@ def run_check(plugin, prop, tier, seed, skip_lean=False) -> int:
     finally:
         linecov.stop()
     t2 = time.time()
+    _STATE[prop] = plugin_state(plugin)
 
     violations = []      # property failures on the implementation not covered by an open finding
     known_hits = {}
@@ -434,6 +657,17 @@ def run_check(plugin, prop, tier, seed, skip_lean=False) -> int:
                 if j['pfail'] and not (j['finding'] and j['finding'] in open_ids):
                     violations.append((c, i, m, j))
 
+    # history / twin amplification: whenever the property is no longer shown to hold and no failing input was found yet, and
+    # always in the thorough tier (VERIF_AMPLIFY=1 forces it, =0 switches it off)
+    amp_stats = None
+    amp_on = os.environ.get('VERIF_AMPLIFY', '')
+    if not violations and amp_on != '0' and getattr(plugin, 'AMPLIFY', True) and \
+            (tier == 'thorough' or corr_breaks or lean['proof_broken'] or amp_on == '1'):
+        amp = amplified_run(plugin, prop, tier, res, open_ids, (t2 - t1) / max(len(res), 1))
+        amp_stats = amp['stats']
+        violations += amp['violations']
+        corr_breaks += amp['corr_breaks']
+
     rc = 0
     lines = []
     nviol = 0
@@ -446,7 +680,7 @@ def run_check(plugin, prop, tier, seed, skip_lean=False) -> int:
         cands = violations[:3] + [v for v in violations[3:] if v[0].get('x', {}).get('history')][:3]
         before = []
         for k, cand in enumerate(cands):
-            if fails_fresh(prop, [], cand[0]):
+            if fails_fresh(prop, [], cand[0], cand[3].get('_baseline_impl')):
                 c, i, m, j = cand
                 standalone = True
                 break
@@ -456,9 +690,11 @@ def run_check(plugin, prop, tier, seed, skip_lean=False) -> int:
             pos = {id(x): n for n, x in enumerate(all_cases)}
             for cand in violations[:2]:
                 n = pos.get(id(cand[0]))
-                if n is None:
+                if n is None and cand[3].get('_prefix') is None:
                     continue
-                found = minimal_history(prop, all_cases[:n], cand[0])
+                # a failure found by the amplified run carries the executions that preceded it in the fresh process
+                prefix = cand[3]['_prefix'] if cand[3].get('_prefix') is not None else all_cases[:n]
+                found = minimal_history(prop, prefix, cand[0], baseline=cand[3].get('_baseline_impl'))
                 if found is not None:
                     c, i, m, j = cand
                     before = found
@@ -474,7 +710,8 @@ def run_check(plugin, prop, tier, seed, skip_lean=False) -> int:
             'finding_class': j.get('finding'), 'n_failing_cases_this_run': len(violations),
             'failure_classes_this_run': _classes(violations),
             'proof_broken': lean['proof_broken'], 'n_correspondence_disagreements': len(corr_breaks),
-            'standalone_reproduces': standalone, 'before': before, 'seed': seed, 'tier': tier,
+            'standalone_reproduces': standalone, 'before': before, 'baseline_impl': j.get('_baseline_impl'),
+            'plugin_state': _STATE.get(prop), 'amplified_run': amp_stats, 'seed': seed, 'tier': tier,
             'rerun_cmd': f'VERIF_SEED={seed} ./check {prop} --tier {tier}',
             'replay_cmd': f'./check {prop} --replay <this file>'})
         lines.append(f'VIOLATION property={prop} replay={path}')
@@ -531,6 +768,8 @@ def run_check(plugin, prop, tier, seed, skip_lean=False) -> int:
         cov['impl_line_coverage'] = linecov.report()
     except Exception as e:
         cov['impl_line_coverage'] = {'error': repr(e)}
+    if amp_stats is not None:
+        cov['amplified_run'] = amp_stats
     if hasattr(plugin, 'extra_coverage'):
         try:
             cov.update(plugin.extra_coverage(res))
@@ -566,6 +805,8 @@ def replay(plugin, prop, path, quiet=False) -> int:
         if rc != 0:
             raise RuntimeError('the model driver does not build:\n' + out[-2000:])
     r = json.load(open(path))
+    if r.get('plugin_state') is not None and hasattr(plugin, 'import_state'):
+        plugin.import_state(r['plugin_state'])
     if r.get('kind') == 'no-failing-input-found':
         print('this replay names a broken proof obligation / correspondence, not a failing input:')
         print(json.dumps(r.get('what'), indent=1))
@@ -583,5 +824,9 @@ def replay(plugin, prop, path, quiet=False) -> int:
             print(json.dumps({'case': c, 'impl': i, 'model': m, 'judgement': j}, indent=1, default=str))
         if j['pfail'] or not j['corr']:
             bad += 1
+        elif r.get('baseline_impl') is not None and not (getattr(plugin, 'same_outcome', None) or default_same_outcome)(c, r['baseline_impl'], _plain(i)):
+            bad += 1      # history dependence: the outcome differs from the one the case produced when it ran first
+            if not quiet:
+                print('outcome differs from the recorded first execution:', json.dumps(r['baseline_impl'], default=str)[:400])
     print('still reproduces' if bad else 'does not reproduce')
     return 1 if bad else 0
